@@ -514,6 +514,7 @@ func (w *wd) prepare(ref string, id uint64, p roundPlan, forced *usedTx) *prepar
 func (w *wd) evaluate(a *attempt, qm consensustypes.QueuedSignedMessageI) {
 	m := world.TurnstoneMsg(w.c, qm)
 	a.matches, a.prefix = false, -1
+	a.inserted, a.insertedAt, a.betweenParts = 0, 0, false
 	data := a.tx.Data()
 	switch x := m.Action.(type) {
 	case *evmtypes.Message_UpdateValset:
@@ -532,6 +533,8 @@ func (w *wd) evaluate(a *attempt, qm consensustypes.QueuedSignedMessageI) {
 		if err == nil {
 			if ref, err := s.encode(); err == nil && bytes.Equal(ref, data) {
 				a.matches, a.prefix = true, 0
+			} else if err == nil {
+				a.noteShape(ref, data, s.Split)
 			}
 		}
 		return
@@ -556,8 +559,44 @@ func (w *wd) evaluate(a *attempt, qm consensustypes.QueuedSignedMessageI) {
 		}
 		if bytes.Equal(ref, data) {
 			a.matches, a.prefix = true, i
+			a.inserted, a.insertedAt, a.betweenParts = 0, 0, false
 			return
 		}
+		a.noteShape(ref, data, 0)
+	}
+}
+
+// noteShape (observation for the evidence file and the witness, not part of the verdict): is the
+// call data that does NOT equal the reference encoding `ref` that encoding with foreign bytes
+// inserted somewhere INSIDE it, i.e. data = ref[:p] ++ X ++ ref[p:] with 0 < p < len(ref)? For a
+// contract creation (split = length of the bytecode): can p be the boundary between the bytecode and
+// the constructor input, so that the data still starts with the bytecode and still ends with the
+// expected constructor arguments?
+func (a *attempt) noteShape(ref, data []byte, split int) {
+	if a.inserted > 0 || len(ref) == 0 || len(data) <= len(ref) {
+		return
+	}
+	lcp, lcs := 0, 0
+	for lcp < len(ref) && ref[lcp] == data[lcp] {
+		lcp++
+	}
+	for lcs < len(ref) && ref[len(ref)-1-lcs] == data[len(data)-1-lcs] {
+		lcs++
+	}
+	// possible insertion points: len(ref)-lcs <= p <= lcp
+	lo, hi := len(ref)-lcs, lcp
+	if lo < 1 {
+		lo = 1
+	}
+	if hi > len(ref)-1 {
+		hi = len(ref) - 1
+	}
+	if lo > hi {
+		return
+	}
+	a.inserted, a.insertedAt = len(data)-len(ref), hi
+	if split > 0 && split < len(ref) && lo <= split && split <= hi {
+		a.insertedAt, a.betweenParts = split, true
 	}
 }
 
